@@ -314,6 +314,25 @@ func (v *fnVC) applyCall(in ssa.Instruction, ci calleeInfo, args []*T, st *State
 		props = unionProps(props, v.ctProps())
 		v.oblige("pre@call", fmt.Sprintf("pre:%s%s@call%d", lastSeg(ci.display), clauseTag(c, k), n), props, c.Expr, v.pos(in.Pos()), R, g, st)
 	}
+	// `callsite CALLEE :: E` clauses of the function under proof: E over the callee's parameter names
+	// (bound to the actual arguments) and this function's own parameters / free variables
+	if v.ct != nil {
+		for k, c := range v.ct.CallReqs {
+			if !strings.HasSuffix(ci.display, c.Callee) && !strings.HasSuffix(shortKey(strings.TrimPrefix(ct.Key, "iface:")), c.Callee) {
+				continue
+			}
+			if v.callReqHit == nil {
+				v.callReqHit = map[int]bool{}
+			}
+			v.callReqHit[k] = true
+			xc := v.exFor(st, v.entry, nil)
+			for kk, t := range vars {
+				xc.vars[kk] = t
+			}
+			xc.resolve = v.resolver(in.Block(), st, nil)
+			v.oblige("callsite", fmt.Sprintf("callsite%s@%s#%d", clauseTag(c, k), lastSeg(ci.display), n), v.propsOf(c), c.Expr, v.pos(in.Pos()), R, xc.Bool(c.Expr), st)
+		}
+	}
 	old := st.clone()
 	// frame: callee's assigns must be inside ours
 	if !ct.HasAsg {
